@@ -61,7 +61,9 @@ inductive DtdItem where
   | declGE (name sysId pubId : String)      -- <!ENTITY n PUBLIC "pubId" "sysId">
   | declPE (name sysId pubId : String)      -- <!ENTITY % n …>
   | refPE (name : String)                   -- %n;
-  deriving Repr, DecidableEq, Inhabited
+  | declIntPE (name : String) (text : List DtdItem)
+      -- <!ENTITY % n "…declarations…">: an INTERNAL parameter entity whose replacement text is itself DTD text
+  deriving Repr, Inhabited
 
 inductive BodyItem where
   | refGE (name : String)                               -- &n;
@@ -78,7 +80,7 @@ inductive XsItem where
 structure Doctype where
   extId : Option (String × String)          -- (systemId, publicId) of the external subset
   intSubset : List DtdItem
-  deriving Repr, DecidableEq, Inhabited
+  deriving Repr, Inhabited
 
 inductive Content where
   | doc (dt : Option Doctype) (body : List BodyItem)                                  -- instance document
@@ -194,6 +196,7 @@ def DeclOK := { d : Decl // d.baseURI = d.declaredIn }
 structure St (w : World) (cfg : Cfg) where
   ge : List (String × DeclOK) := []
   pe : List (String × DeclOK) := []
+  ipe : List (String × List DtdItem) := []   -- internal parameter entities (replacement text)
   sawExtOrPE : Bool := false                 -- !fHasNoDTD: an external subset or a PE reference was seen
   grammars : List String := []               -- namespaces for which the grammar resolver has a schema grammar
   seen : List (String × String) := []        -- fSchemaInfoList keys: (schema URL, namespace)
@@ -210,6 +213,11 @@ def lookupDecl (l : List (String × DeclOK)) (n : String) : Option DeclOK :=
   match l with
   | [] => none
   | (m, d) :: rest => if m = n then some d else lookupDecl rest n
+
+def lookupText (l : List (String × List DtdItem)) (n : String) : Option (List DtdItem) :=
+  match l with
+  | [] => none
+  | (m, d) :: rest => if m = n then some d else lookupText rest n
 
 /-- first declaration binds -/
 def declare (l : List (String × DeclOK)) (n : String) (d : DeclOK) : List (String × DeclOK) :=
@@ -236,10 +244,22 @@ def dtdItems : Nat → Ctx → String → List DtdItem → St w cfg → St w cfg
     if st.fatal.isSome then st else
     match it with
     | .declGE n s p => dtdItems f ctx cur rest { st with ge := declare st.ge n (mkDecl s p cur) }
-    | .declPE n s p => dtdItems f ctx cur rest { st with pe := declare st.pe n (mkDecl s p cur) }
+    | .declPE n s p =>
+      if (lookupText st.ipe n).isSome then dtdItems f ctx cur rest st        -- first declaration binds
+      else dtdItems f ctx cur rest { st with pe := declare st.pe n (mkDecl s p cur) }
+    | .declIntPE n text =>
+      if (lookupText st.ipe n).isSome || (lookupDecl st.pe n).isSome then dtdItems f ctx cur rest st
+      else dtdItems f ctx cur rest { st with ipe := st.ipe ++ [(n, text)] }
     | .refPE n =>
       -- DTDScanner::expandPERef: fScanner->setHasNoDTD(false)
       let st := { st with sawExtOrPE := true }
+      match lookupText st.ipe n with
+      | some text =>
+        -- createIntEntReader: the replacement text is read by an in-memory reader WITHOUT a system id; declarations
+        -- scanned from it take their base from ReaderMgr::getLastExtEntityInfo, which looks through internal
+        -- entities: `cur` stays the system id of the innermost EXTERNAL entity being read
+        dtdItems f ctx cur rest (dtdItems f ctx cur text st)
+      | none =>
       match lookupDecl st.pe n with
       | none => dtdItems f ctx cur rest st       -- not declared: a validity error at most, scanning continues
       | some d =>
@@ -313,9 +333,9 @@ def schemaDoc : Nat → Source → String → Bool → St w cfg → St w cfg
     match w.content s.key with
     | some (.schema dt tns items body) =>
       -- inner parser: its own entity tables; validation never
-      let inner : St w cfg := { st with ge := [], pe := [], sawExtOrPE := false }
+      let inner : St w cfg := { st with ge := [], pe := [], ipe := [], sawExtOrPE := false }
       let st1 := bodyItems f .schemaDoc s.sysId body (doctype f .schemaDoc s.sysId dt inner)
-      let st2 : St w cfg := { st1 with ge := st.ge, pe := st.pe, sawExtOrPE := st.sawExtOrPE }
+      let st2 : St w cfg := { st1 with ge := st.ge, pe := st.pe, ipe := st.ipe, sawExtOrPE := st.sawExtOrPE }
       if st2.fatal.isSome then st2                                        -- SchemaScanFatalError
       else
         let ns' := if top then tns else ns
@@ -368,9 +388,9 @@ def included : Nat → Source → String → St w cfg → St w cfg
   | f + 1, s, tns, st =>
     match w.content s.key with
     | some (.schema dt tns' items body) =>
-      let inner : St w cfg := { st with ge := [], pe := [], sawExtOrPE := false }
+      let inner : St w cfg := { st with ge := [], pe := [], ipe := [], sawExtOrPE := false }
       let st1 := bodyItems f .schemaDoc s.sysId body (doctype f .schemaDoc s.sysId dt inner)
-      let st2 : St w cfg := { st1 with ge := st.ge, pe := st.pe, sawExtOrPE := st.sawExtOrPE }
+      let st2 : St w cfg := { st1 with ge := st.ge, pe := st.pe, ipe := st.ipe, sawExtOrPE := st.sawExtOrPE }
       if st2.fatal.isSome then st2
       else if tns' != "" && tns' != tns then st2                          -- IncludeNamespaceDifference
       else xsItems f s.sysId tns items { st2 with seen := (s.sysId, tns) :: st2.seen }
